@@ -4,7 +4,7 @@ from __future__ import annotations
 import ast
 from typing import List, Optional
 
-from fjsa.flow import FuncFlow, call_args, same, txt
+from fjsa.flow import self_txt, FuncFlow, call_args, same, txt
 from fjsa.model import FuncInfo
 from fjsa.report import Check
 from fjsa.rules import wmean
@@ -113,7 +113,7 @@ def _get_sampler(check: Check, ci):
            'seating the sampler stores exactly the requested round number')
   # random state
   prs_calls = [c for _, c in ff.calls() if wmean.repo_fn(ff, c) == f'{MOD}:get_pseudo_random_state']
-  ok_rs = len(prs_calls) == 1 and [txt(a) for a in prs_calls[0].args] == ['self._seed', 'self._round_num'] and wmean._loop_of(ff, prs_calls[0]) is None
+  ok_rs = len(prs_calls) == 1 and [self_txt(ff, a) for a in prs_calls[0].args] == ['self._seed', 'self._round_num'] and wmean._loop_of(ff, prs_calls[0]) is None
   check.ob('R-SEED', sample, txt(prs_calls[0]) if prs_calls else 'get_pseudo_random_state', ok_rs,
            'a fresh RandomState per call, derived from (self._seed, self._round_num) only')
   other_rng = [c for _, c in ff.calls() if (ff.ext(c.func) or '').startswith('numpy.random.')]
@@ -186,10 +186,11 @@ def _keys_var(ff: FuncFlow):
 def _keys(check: Check, sample: FuncInfo, ff: FuncFlow):
   ok = False
   for _, c in ff.calls():
-    if ff.ext(c.func) == 'jax.random.split' and len(c.args) == 2:
-      a0, a1 = c.args
-      ok = isinstance(a0, ast.Call) and ff.ext(a0.func) in ('jax.random.PRNGKey', 'jax.random.key') and a0.args and txt(
-          a0.args[0]) == 'self._round_num' and txt(a1) == 'self._num_clients'
+    if ff.ext(c.func) == 'jax.random.split' and (len(c.args) == 2 or (len(c.args) == 1 and any(k.arg == 'num' for k in c.keywords))):
+      a0 = c.args[0]
+      a1 = c.args[1] if len(c.args) == 2 else next(k.value for k in c.keywords if k.arg == 'num')
+      ok = isinstance(a0, ast.Call) and ff.ext(a0.func) in ('jax.random.PRNGKey', 'jax.random.key') and a0.args and self_txt(
+          ff, a0.args[0]) == 'self._round_num' and self_txt(ff, a1) == 'self._num_clients'
   check.ob('R-SEED.keys', sample, 'split(PRNGKey(self._round_num), self._num_clients)', ok,
            'client keys depend on the round number only: one distinct key per cohort slot, different from round to round')
 
@@ -203,8 +204,8 @@ def _shuffled_sampler(check: Check, ci):
   # exactly num_clients next() per round
   ok = False
   for n in ff.cfg.nodes:
-    if n.kind == 'for' and isinstance(n.ast.iter, ast.Call) and ff.ext(n.ast.iter.func) == 'builtins.range' and txt(n.ast.iter.args[0]) == 'self._num_clients':
-      nx = [c for st in n.ast.body for c in ast.walk(st) if isinstance(c, ast.Call) and txt(c.func) == 'next' and txt(c.args[0]) == 'self._shuffled_clients_iter']
+    if n.kind == 'for' and isinstance(n.ast.iter, ast.Call) and ff.ext(n.ast.iter.func) == 'builtins.range' and self_txt(ff, n.ast.iter.args[0]) == 'self._num_clients':
+      nx = [c for st in n.ast.body for c in ast.walk(st) if isinstance(c, ast.Call) and txt(c.func) == 'next' and self_txt(ff, c.args[0]) == 'self._shuffled_clients_iter']
       app = [c for st in n.ast.body for c in ast.walk(st) if isinstance(c, ast.Call) and isinstance(c.func, ast.Attribute) and c.func.attr == 'append']
       idx = n.ast.target.id if isinstance(n.ast.target, ast.Name) else None
       key_ok = any(isinstance(c.args[0], ast.Tuple) and len(c.args[0].elts) == 3 and txt(c.args[0].elts[2]) == f'{_keys_var(ff)}[{idx}]' for c in app if c.args)
@@ -215,9 +216,9 @@ def _shuffled_sampler(check: Check, ci):
   iff = FuncFlow.of(repo, init)
   skip_ok = False
   for n in iff.cfg.nodes:
-    if n.kind == 'for' and isinstance(n.ast.iter, ast.Call) and txt(n.ast.iter.args[0]) == 'self._round_num':
+    if n.kind == 'for' and isinstance(n.ast.iter, ast.Call) and n.ast.iter.args and self_txt(iff, n.ast.iter.args[0]) == 'self._round_num':
       inner = [s for s in n.ast.body if isinstance(s, ast.For)]
-      if inner and txt(inner[0].iter.args[0]) == 'self._num_clients':
+      if inner and isinstance(inner[0].iter, ast.Call) and inner[0].iter.args and self_txt(iff, inner[0].iter.args[0]) == 'self._num_clients':
         nx = [c for c in ast.walk(inner[0]) if isinstance(c, ast.Call) and txt(c.func) == 'next']
         skip_ok = len(nx) == 1
   rn = any(isinstance(st, ast.Assign) and txt(st.targets[0]) == 'self._round_num' and txt(st.value) == 'start_round_num' for st in init.node.body)
